@@ -228,6 +228,10 @@ pub struct CodegenContext {
     changed: HashSet<UndefinedSymbol>,
     /// The symbols that were looked up in the current pass
     used: Vec<(SymbolIndex, UndefinedSymbol)>,
+    /// What was not found in the branches that are not taken, in this pass and in the previous one. That is not an error,
+    /// but as long as it changes from pass to pass there is something left to find out for the analysis.
+    undefined_in_untaken_branches: HashSet<UndefinedSymbol>,
+    prev_undefined_in_untaken_branches: HashSet<UndefinedSymbol>,
     /// A reference that was bound to one symbol while the pass went on to define another one that it should have been
     /// bound to, if any. The layout is started afresh then (see `after_pass`).
     rebound: Option<UndefinedSymbol>,
@@ -309,6 +313,8 @@ impl CodegenContext {
             undefined: HashSet::new(),
             changed: HashSet::new(),
             used: vec![],
+            undefined_in_untaken_branches: HashSet::new(),
+            prev_undefined_in_untaken_branches: HashSet::new(),
             rebound: None,
             fresh_starts: 0,
             hiding_stale_symbols: false,
@@ -444,6 +450,34 @@ impl CodegenContext {
                 }
             }
         }
+        let undefined_in_untaken_branches =
+            std::mem::take(&mut self.undefined_in_untaken_branches);
+        // (compared by name and place: the scopes of these branches may come and go)
+        let names_and_places = |set: &HashSet<UndefinedSymbol>| {
+            set.iter()
+                .map(|undefined| (undefined.id.clone(), undefined.span))
+                .collect::<HashSet<_>>()
+        };
+        // (a pass without any segment has not defined a single label: it does not count)
+        if !self.segments.is_empty() {
+            if names_and_places(&undefined_in_untaken_branches)
+                != names_and_places(&self.prev_undefined_in_untaken_branches)
+            {
+                if let Some(undefined) = undefined_in_untaken_branches
+                    .iter()
+                    .chain(self.prev_undefined_in_untaken_branches.iter())
+                    .next()
+                {
+                    self.changed.insert(UndefinedSymbol {
+                        scope_nx: undefined.scope_nx,
+                        id: undefined.id.clone(),
+                        span: undefined.span,
+                    });
+                }
+            }
+            self.prev_undefined_in_untaken_branches = undefined_in_untaken_branches;
+        }
+
         // (both the pass that found out and the pass that started afresh need a pass after them)
         if let Some(rebound) = &self.rebound {
             self.changed.insert(UndefinedSymbol {
@@ -1727,7 +1761,11 @@ impl CodegenContext {
         let undefined = std::mem::take(&mut self.undefined);
         let _ = self
             .with_dummy_segment(|s| s.with_scope(&scope, None, |s| s.emit_tokens(&block.inner)));
-        self.undefined = undefined;
+        // What is not found yet may be defined further down, though. Then there has to be another pass in which it is
+        // found, or the analysis would not know what the name refers to (see `after_pass`).
+        let undefined_in_branch = std::mem::replace(&mut self.undefined, undefined);
+        self.undefined_in_untaken_branches
+            .extend(undefined_in_branch);
     }
 
     fn with_dummy_segment<F: FnOnce(&mut Self) -> CoreResult<()>>(
